@@ -40,10 +40,12 @@ type c05Pool struct {
 	Fault        c05Fault
 	QLen         int
 	ProvBlock    bool
+	// WarmUp: the pool's warm-up takes this long and ignores its context (as the stock gRPC gun's does)
+	WarmUp time.Duration
 }
 
 func (p c05Pool) String() string {
-	return fmt.Sprintf("{inst=%d tokens=%d perInst=%v items=%d shot=%v closable=%v blockingAggr=%v fault=%s@%d ctxkind=%v}", p.Inst, p.Tokens, p.PerInstance, p.Items, p.ShotDur, p.Closable, p.BlockingAggr, p.Fault.Kind, p.Fault.Pos, p.Fault.CtxKind)
+	return fmt.Sprintf("{inst=%d tokens=%d perInst=%v items=%d shot=%v closable=%v blockingAggr=%v fault=%s@%d ctxkind=%v warmup=%v}", p.Inst, p.Tokens, p.PerInstance, p.Items, p.ShotDur, p.Closable, p.BlockingAggr, p.Fault.Kind, p.Fault.Pos, p.Fault.CtxKind, p.WarmUp)
 }
 
 var c05Kinds = []string{"none", "prov-err", "aggr-open", "aggr-err", "aggr-drop", "gun-new", "bind", "warmup", "shot-panic", "sched-shared", "sched-inst"}
@@ -75,6 +77,9 @@ func c05GenPool(w, f *simrt.Stream, faultHere bool, kindForced string) c05Pool {
 		p.Items = p.Tokens + w.Draw(6)
 	}
 	p.ShotDur = []time.Duration{0, time.Millisecond, 100 * time.Millisecond, time.Second}[w.Draw(4)]
+	if w.Draw(8) == 0 {
+		p.WarmUp = 15 * time.Second
+	}
 	p.ProvBlock = w.Draw(4) == 0 // only honoured when a cancel is planned (a provider that neither delivers nor ends cannot finish otherwise)
 	p.Fault = c05Fault{Kind: "none"}
 	p.BlockingAggr = false
@@ -161,6 +166,15 @@ func runC05(r *R) {
 	r.Sample(map[string]any{"pools": fmt.Sprint(pools), "cancel_phase": cancelPhase, "cancel_at": cancelAt.String(), "stalls": stalls})
 
 	const G = 10 * time.Second
+	var maxWarm time.Duration
+	for _, ps := range pools {
+		if ps.WarmUp > maxWarm {
+			maxWarm = ps.WarmUp
+		}
+	}
+	if maxWarm > 0 {
+		r.Note("slow-warm-up")
+	}
 	var (
 		rts          []*c05PoolRT
 		runErr       error
@@ -187,6 +201,7 @@ func runC05(r *R) {
 			script.Closable = ps.Closable
 			script.ShotDur = func(int, int) time.Duration { return ps.ShotDur }
 			script.Report = true
+			script.WarmUpDur = ps.WarmUp
 			switch ps.Fault.Kind {
 			case "gun-new":
 				script.NewErrAt = ps.Fault.Pos
@@ -270,7 +285,9 @@ func runC05(r *R) {
 		case <-waited:
 			waitAt = time.Since(t0)
 			waitSq = simrt.Seq()
-		case <-time.After(G):
+		case <-time.After(G + maxWarm):
+			// (a warm-up that ignores its context keeps its pool's goroutine for as long as it takes: the engine's
+			// background tasks are over G after that at the latest)
 		}
 	})
 	if res.Class == simrt.Crash {
